@@ -64,7 +64,7 @@ func (w *World) reachable() map[string]bool {
 	byName := map[string]*ssa.Function{}
 	for _, f := range w.SSAFuncs {
 		if f.Parent() == nil {
-			byName[fnShort(f)] = f
+			byName[fnReal(f)] = f
 		}
 	}
 	seen := map[*ssa.Function]bool{}
@@ -117,7 +117,7 @@ func (w *World) reachable() map[string]bool {
 	w.reach = map[string]bool{}
 	for f := range seen {
 		if f.Pkg != nil || f.Origin() != nil {
-			w.reach[fnShort(f)] = true
+			w.reach[fnReal(f)] = true
 		}
 	}
 	return w.reach
